@@ -1,3 +1,100 @@
-(* C10 property theorems: statements only, each closed by [exact]. *)
+(* C10 property theorems: statements only, each closed by [exact].
+   parseRoute / parseWildcard are the faithful models (ParseRoute.v, ParseWildcard.v);
+   in_grammar is the documented grammar (Grammar.v); both limits are universally quantified. *)
 From FoxBase Require Import Bytes.
-From FoxPattern Require Import ParseRoute ParseWildcard Token Grammar.
+Import List ListNotations.
+From FoxPattern Require Import ParseRoute ParseWildcard Token Grammar ProofsRefine ProofsWild ProofsProps.
+Open Scope char_scope.
+Open Scope nat_scope.
+
+(* -- registration never panics (nor runs out of fuel) on ANY byte string, under any limits -- *)
+Theorem parseRoute_total : forall mp mk url,
+  parseRoute mp mk url <> Panic /\ parseRoute mp mk url <> OutOfFuel.
+Proof. exact parseRoute_no_crash. Qed.
+Print Assumptions parseRoute_total.
+
+Theorem parseWildcard_total : forall key, exists ps, parseWildcard key = WOk ps.
+Proof. exact parseWildcard_never_panics. Qed.
+Print Assumptions parseWildcard_total.
+
+(* -- accepted exactly per the grammar: full statement (kept visible; refuted below) -- *)
+Definition parseRoute_iff_grammar_statement : Prop :=
+  forall mp mk s n eh, parseRoute mp mk s = Accept n eh <-> in_grammar mp mk s n eh.
+
+(* what IS true of the code, for every string and both limits: it accepts exactly the
+   grammar in which hostname labels may also contain '_' , with the grammar's wildcard
+   count and host split *)
+Theorem parseRoute_accepts_exactly : forall mp mk s n eh,
+  parseRoute mp mk s = Accept n eh <-> in_grammar_with ldh_or_underscore mp mk s n eh.
+Proof. exact accepts_exactly. Qed.
+Print Assumptions parseRoute_accepts_exactly.
+
+(* hence the full statement holds on every pattern without '_' in its hostname part ... *)
+Theorem parseRoute_iff_grammar_partial : forall mp mk s n eh,
+  forallb (fun c => negb (Ascii.eqb c "_")) (host_part s) = true ->
+  (parseRoute mp mk s = Accept n eh <-> in_grammar mp mk s n eh).
+Proof. exact grammar_partial. Qed.
+Print Assumptions parseRoute_iff_grammar_partial.
+
+(* ... and fails with it: "a_b/" is accepted, LDH forbids '_' (finding c10_underscore_hostname) *)
+Theorem parseRoute_iff_grammar_refuted :
+  exists mp mk s n eh, parseRoute mp mk s = Accept n eh /\ ~ in_grammar mp mk s n eh.
+Proof. exact grammar_refuted. Qed.
+Print Assumptions parseRoute_iff_grammar_refuted.
+
+(* the decision procedure used by the correspondence check is the grammar *)
+Theorem grammarb_iff_grammar : forall mp mk s n eh,
+  grammarb mp mk s = Some (n, eh) <-> in_grammar mp mk s n eh.
+Proof. exact grammarb_iff. Qed.
+Print Assumptions grammarb_iff_grammar.
+
+(* -- tokens of an accepted pattern: syntax tree, round trip, count, host split -- *)
+Theorem accepted_pattern_tokens : forall mp mk s n eh,
+  parseRoute mp mk s = Accept n eh ->
+  exists p, render_pat p = s /\ wf_with ldh_or_underscore mp mk p = true /\
+            tokenize s = pat_tokens p /\ n = wild_count p /\ eh = host_len s.
+Proof. exact accepted_tokens. Qed.
+Print Assumptions accepted_pattern_tokens.
+
+Theorem tokenize_render_round_trip : forall mp mk s n eh,
+  parseRoute mp mk s = Accept n eh -> render (tokenize s) = s.
+Proof. exact tokenize_round_trip. Qed.
+Print Assumptions tokenize_render_round_trip.
+
+Theorem accepted_count_and_split : forall mp mk s n eh,
+  parseRoute mp mk s = Accept n eh -> n = tok_wilds (tokenize s) /\ eh = host_len s.
+Proof. exact accepted_count. Qed.
+Print Assumptions accepted_count_and_split.
+
+(* -- parseWildcard agrees with the validator: on any key cut from an accepted pattern at
+      token boundaries it returns exactly the key's wildcards with their end offsets -- *)
+Theorem parseWildcard_agrees : forall mp mk s n eh a b c,
+  parseRoute mp mk s = Accept n eh -> tokenize s = a ++ b ++ c ->
+  parseWildcard (render b) = WOk (map mkp (wild_spec 0 b)).
+Proof. exact wildcard_agrees. Qed.
+Print Assumptions parseWildcard_agrees.
+
+(* -- non-vacuity -- *)
+Example accepted_example :
+  parseRoute 7 9 (S2B "{sub}.ex-ample.de{f}.com/foo/x:{bar}/*{rest}/y") = Accept 4 24 /\
+  in_grammar 7 9 (S2B "{sub}.ex-ample.de{f}.com/foo/x:{bar}/*{rest}/y") 4 24 /\
+  forallb (fun c => negb (Ascii.eqb c "_")) (host_part (S2B "{sub}.ex-ample.de{f}.com/foo/x:{bar}/*{rest}/y")) = true.
+Proof.
+  split; [vm_compute; reflexivity|]. split; [|vm_compute; reflexivity].
+  apply grammarb_iff. vm_compute. reflexivity.
+Qed.
+
+Example rejected_examples :
+  parseRoute 7 9 (S2B "/a/{}") = Reject EEmptyParam /\
+  parseRoute 7 9 (S2B "/*{a}/*{b}") = Reject EConsecutive /\
+  parseRoute 7 2 (S2B "/{abc}") = Reject EKeyTooLarge /\
+  parseRoute 1 9 (S2B "/{a}/{b}") = Reject ETooManyParams /\
+  parseRoute 7 9 (S2B "/*xname}") = Reject EMissingBrace /\
+  parseRoute 7 9 (S2B "a.1-/x") = Reject ETrailingDash.
+Proof. vm_compute. repeat split; reflexivity. Qed.
+
+Example wildcard_example :
+  tokenize (S2B "/a/{b}/*{c}") =
+    [TStatic "/"; TStatic "a"; TStatic "/"; TParam (S2B "b"); TStatic "/"; TCatch (S2B "c")] /\
+  parseWildcard (S2B "{b}/*{c}") = WOk [mkParam (S2B "b") 3 false; mkParam (S2B "c") (-1) true].
+Proof. vm_compute. split; reflexivity. Qed.
